@@ -277,21 +277,52 @@ pub struct TryOut {
     pub violations: Vec<Violation>,
     pub digest: String,
     pub decisions: Vec<u32>,
+    #[serde(default)]
+    pub vs_calm: Vec<(u32, u32)>,
 }
 
 /// One re-execution in a process of its own (an execution that panics must not share a process with the next one).
 pub fn replay_in_fresh_process(r: &Replay, scratch: &mut Scratch) -> (Vec<Violation>, String, Vec<u32>) {
+    let t = try_in_fresh_process(r, scratch);
+    (t.violations, t.digest, t.decisions)
+}
+
+/// Re-execute in a process of its own, with a wall-clock guard (a tree that spins in real time must not stall the minimiser).
+pub fn try_in_fresh_process(r: &Replay, scratch: &mut Scratch) -> TryOut {
     let dir = scratch.fresh_dir("try");
     let f = dir.join("candidate.json");
     std::fs::write(&f, serde_json::to_string(r).unwrap()).unwrap();
-    let out = std::process::Command::new(std::env::current_exe().unwrap()).args(["c10-try", f.to_str().unwrap()]).output();
+    let mut child = std::process::Command::new(std::env::current_exe().unwrap())
+        .args(["c10-try", f.to_str().unwrap()])
+        .stdin(std::process::Stdio::null())
+        .stdout(std::process::Stdio::piped())
+        .stderr(std::process::Stdio::null())
+        .spawn()
+        .unwrap_or_else(|e| crate::harness_error(&format!("cannot start c10-try: {e}")));
+    let mut stdout = child.stdout.take().unwrap();
+    let reader = std::thread::spawn(move || {
+        let mut v = vec![];
+        let _ = std::io::Read::read_to_end(&mut stdout, &mut v);
+        v
+    });
+    let t0 = std::time::Instant::now();
+    let status = loop {
+        match child.try_wait() {
+            Ok(Some(s)) => break Some(s),
+            Ok(None) if t0.elapsed().as_secs() > 90 => {
+                let _ = child.kill();
+                let _ = child.wait();
+                break None;
+            }
+            Ok(None) => std::thread::sleep(std::time::Duration::from_millis(2)),
+            Err(_) => break None,
+        }
+    };
+    let out = reader.join().unwrap_or_default();
     let _ = std::fs::remove_dir_all(&dir);
-    match out {
-        Ok(o) => match serde_json::from_slice::<TryOut>(&o.stdout) {
-            Ok(t) => (t.violations, t.digest, t.decisions),
-            Err(_) => (vec![Violation { class: "abort".into(), detail: format!("re-execution ended with {:?}", o.status) }], String::new(), vec![]),
-        },
-        Err(e) => crate::harness_error(&format!("cannot start c10-try: {e}")),
+    match serde_json::from_slice::<TryOut>(&out) {
+        Ok(t) => t,
+        Err(_) => TryOut { violations: vec![Violation { class: "abort".into(), detail: format!("re-execution ended with {status:?}") }], digest: String::new(), decisions: vec![], vs_calm: vec![] },
     }
 }
 
@@ -300,8 +331,10 @@ fn same_class(vs: &[Violation], class: &str) -> Option<Violation> {
 }
 
 /// Shrink a failing execution while the same violation class persists.
-pub fn minimise(mut r: Replay, scratch: &mut Scratch) -> Replay {
+pub fn minimise(mut r: Replay, scratch: &mut Scratch, budget_s: u64) -> Replay {
     let class = r.violation.class.clone();
+    let started = std::time::Instant::now();
+    let out_of_time = || started.elapsed().as_secs() >= budget_s;
     let tries = std::cell::Cell::new(0u32);
     let attempt = |cand: &Replay, scratch: &mut Scratch| -> Option<(Violation, String, Vec<u32>)> {
         tries.set(tries.get() + 1);
@@ -329,18 +362,18 @@ pub fn minimise(mut r: Replay, scratch: &mut Scratch) -> Replay {
         c.sched = SchedSpec::Calm { overrides: vec![] };
         c.max_steps = FIRST_BOUND;
         if !try_keep!(c) {
-            // express the failing schedule as overrides of the calm policy
-            if let SchedSpec::Replay { decisions } = &r.sched {
-                let overrides: Vec<(u32, u32)> = decisions.iter().enumerate().map(|(s, t)| (s as u32, *t)).collect();
+            // express the failing schedule as the decisions that deviate from the calm policy
+            if let SchedSpec::Replay { .. } = &r.sched {
+                let overrides: Vec<(u32, u32)> = try_in_fresh_process(&r, scratch).vs_calm;
                 let mut c = r.clone();
                 c.sched = SchedSpec::Calm { overrides: overrides.clone() };
                 if try_keep!(c) {
                     let mut cur = overrides;
                     let mut chunk = (cur.len() / 2).max(1);
-                    while chunk >= 1 && tries.get() < 400 {
+                    while chunk >= 1 && tries.get() < 400 && !out_of_time() {
                         let mut start = 0;
                         let mut progressed = false;
-                        while start < cur.len() && tries.get() < 400 {
+                        while start < cur.len() && tries.get() < 400 && !out_of_time() {
                             let mut cand: Vec<(u32, u32)> = cur[..start].to_vec();
                             cand.extend_from_slice(&cur[(start + chunk).min(cur.len())..]);
                             let mut c = r.clone();
@@ -368,6 +401,9 @@ pub fn minimise(mut r: Replay, scratch: &mut Scratch) -> Replay {
     // 2. plan: benign perturbations off
     let quiet = anthem_simrt::plan::Plan::quiet();
     for step in 0..7 {
+        if out_of_time() {
+            break;
+        }
         let mut c = r.clone();
         match step {
             0 => c.case.plan.short_write_pct = 0,
@@ -397,6 +433,9 @@ pub fn minimise(mut r: Replay, scratch: &mut Scratch) -> Replay {
     }
     let keys: Vec<String> = r.case.plan.outcomes.keys().cloned().collect();
     for key in keys {
+        if out_of_time() {
+            break;
+        }
         let mut c = r.clone();
         let o = c.case.plan.outcomes.get_mut(&key).unwrap();
         if o.class != "Theorem" || o.compute_steps != 0 || o.stdout.len() > 40 {
@@ -457,7 +496,7 @@ impl Replay {
     fn sched_note(&mut self) {
         let s = match &self.sched {
             SchedSpec::Calm { overrides } if overrides.is_empty() => "schedule-independent: fails under the calm schedule".to_string(),
-            SchedSpec::Calm { overrides } => format!("needs {} forced context switch(es) on top of the calm schedule: {:?}", overrides.len(), overrides),
+            SchedSpec::Calm { overrides } => format!("needs {} scheduling decision(s) that deviate from the calm schedule (step, task): {:?}{}", overrides.len(), &overrides[..overrides.len().min(12)], if overrides.len() > 12 { " ..." } else { "" }),
             _ => "original random schedule kept".to_string(),
         };
         if !self.note.contains(&s) {
